@@ -233,7 +233,9 @@ func Risky(input []byte) bool {
 }
 
 type childReq struct {
-	Input string `json:"input"`
+	Input string `json:"input"` // hex; followed by Count copies of Pat (hex)
+	Pat   string `json:"pat,omitempty"`
+	Count int    `json:"count,omitempty"`
 	Buf   int    `json:"buf"`
 	Sizes []int  `json:"sizes"`
 }
@@ -248,6 +250,10 @@ func ChildMain() {
 		os.Exit(3)
 	}
 	in, _ := hex.DecodeString(rq.Input)
+	if rq.Count > 0 {
+		pat, _ := hex.DecodeString(rq.Pat)
+		in = append(in, bytes.Repeat(pat, rq.Count)...)
+	}
 	o := Decode(in, rq.Buf, rq.Sizes)
 	_ = json.NewEncoder(os.Stdout).Encode(o)
 }
@@ -255,7 +261,12 @@ func ChildMain() {
 // DecodeSandboxed runs Decode in a child process whose address space is limited to 4 GiB: an attempt
 // to allocate a declared length of gigabytes kills the child (Status "fatal") instead of the machine.
 func DecodeSandboxed(input []byte, bufSize int, sizes []int) Outcome {
-	rq, _ := json.Marshal(childReq{Input: hex.EncodeToString(input), Buf: bufSize, Sizes: sizes})
+	return DecodeSandboxedBig(input, nil, 0, bufSize, sizes)
+}
+
+// DecodeSandboxedBig decodes prefix followed by count copies of pat (built inside the child).
+func DecodeSandboxedBig(prefix, pat []byte, count int, bufSize int, sizes []int) Outcome {
+	rq, _ := json.Marshal(childReq{Input: hex.EncodeToString(prefix), Pat: hex.EncodeToString(pat), Count: count, Buf: bufSize, Sizes: sizes})
 	cmd := exec.Command(os.Args[0], "-resp-child")
 	cmd.Stdin = bytes.NewReader(rq)
 	var out, errb bytes.Buffer
